@@ -117,6 +117,16 @@ VerifyInternal(h, mp, sig) ==
   /\ out' = [op |-> "VerifyInternal", res |-> VerdictMp(h, mp, sig)]
   /\ UNCHANGED << keys, issued, sigof, ser, fmt >>
 
+\* ------------------------------------------------------------------ the constant-time test entry point (feature `dudect`)
+\* KeyGen then Sign in test mode: two requests of 32 bytes through the fallible interface (seed, then rnd); a failure
+\* of either request ends the call with an error.  It returns no key object and its output is not a signature of the
+\* ideal functionality (rejection is neutralised), so nothing is issued.
+TwoDraws == OneDraw \o OneDraw
+Dudect(fault, at) ==
+  /\ at \in {0, 1}
+  /\ out' = [op |-> "Dudect", ok |-> (fault = "none"), rnglog |-> IF fault # "none" /\ at = 0 THEN OneDraw ELSE TwoDraws]
+  /\ UNCHANGED << keys, issued, sigof, ser, fmt >>
+
 \* ------------------------------------------------------------------ serialisation
 SerKey(h) == << keys[h].kind, keys[h].set, keys[h].lin >>
 Serialise(h, bytes) ==
